@@ -208,6 +208,19 @@ func checkTotalFacts(c ExecCase) (v *Violation, f totalFacts) { //nolint:gocyclo
 	if !deepEqualJSON(docCopy, pr.doc) {
 		return violf("the queried value was modified by %q: %s -> %s", c.Path, Render(docCopy, false), Render(pr.doc, false)), f
 	}
+	if pr.vars != nil {
+		// the same with a second variables option in the call: neither map is written to
+		extra := exec.Vars{"zz_extra": float64(1), "x": "other"}
+		extraCopy := deepCopy(extra)
+		for _, order := range [][]exec.Option{{exec.WithVars(pr.vars), exec.WithVars(extra)}, {exec.WithVars(extra), exec.WithVars(pr.vars)}} {
+			if o := RunQuery(pr.ctx, pr.p, pr.doc, order...); o.Panic != "" {
+				return violf("Query(%q) with two WithVars options panicked: %s", c.Path, o.Panic), f
+			}
+		}
+		if !deepEqualJSON(extraCopy, extra) {
+			return violf("a variables map passed next to another one was modified by %q", c.Path), f
+		}
+	}
 	if !deepEqualJSON(varsCopy, pr.vars) {
 		return violf("the variables were modified by %q", c.Path), f
 	}
